@@ -20,6 +20,9 @@ pub fn opt_config(mask: u8) -> OptimizationConfig {
 }
 pub const OPT_DEFAULT: u8 = 31;
 
+/// resident-set size above which every running engine call is cancelled (counted as discarded)
+pub const MEM_LIMIT_BYTES: u64 = 12 * 1024 * 1024 * 1024;
+
 type WatchList = Mutex<Vec<(Instant, Arc<AtomicBool>, Arc<AtomicBool>)>>;
 static WATCH: OnceLock<Arc<WatchList>> = OnceLock::new();
 
@@ -31,11 +34,17 @@ fn watch_list() -> Arc<WatchList> {
             std::thread::Builder::new()
                 .name("verif-watchdog".into())
                 .spawn(move || loop {
-                    std::thread::sleep(Duration::from_millis(50));
+                    std::thread::sleep(Duration::from_millis(20));
                     let now = Instant::now();
+                    // memory guard: a runaway fixpoint can exhaust RAM long before its deadline
+                    let rss_pages: u64 = std::fs::read_to_string("/proc/self/statm")
+                        .ok()
+                        .and_then(|s| s.split_whitespace().nth(1).and_then(|x| x.parse().ok()))
+                        .unwrap_or(0);
+                    let over = rss_pages * 4096 > MEM_LIMIT_BYTES;
                     let mut g = l2.lock().unwrap();
                     g.retain(|(deadline, cancel, fired)| {
-                        if now >= *deadline {
+                        if over || now >= *deadline {
                             fired.store(true, Ordering::SeqCst);
                             cancel.store(true, Ordering::SeqCst);
                             false
